@@ -1,5 +1,5 @@
 #[cfg(kani)]
-mod verif_rtenload {
+pub(crate) mod verif_rtenload {
     use super::*;
     use rten_tensor::Storage;
     use rten_tensor::prelude::*;
@@ -169,6 +169,42 @@ mod verif_rtenload {
         storage_offset_contract::<i32, 2>(2, 3);
     }
 
+    // thorough tier: the other element types (u8/i8: align 1, always the zero-copy view; f32)
+    // and rank 3.
+    #[kani::proof]
+    #[kani::unwind(8)]
+    pub fn storage_offset_f32_in_range() {
+        let ok = storage_offset_contract::<f32, 2>(0, 0);
+        kani::cover!(ok, "Ok reachable");
+    }
+
+    #[kani::proof]
+    #[kani::unwind(8)]
+    pub fn storage_offset_u8_in_range() {
+        let ok = storage_offset_contract::<u8, 2>(0, 0);
+        kani::cover!(ok, "Ok reachable");
+    }
+
+    #[kani::proof]
+    #[kani::unwind(8)]
+    pub fn storage_offset_u8_oversized() {
+        storage_offset_contract::<u8, 2>(1, 3);
+    }
+
+    #[kani::proof]
+    #[kani::unwind(8)]
+    pub fn storage_offset_i8_in_range() {
+        let ok = storage_offset_contract::<i8, 2>(0, 0);
+        kani::cover!(ok, "Ok reachable");
+    }
+
+    #[kani::proof]
+    #[kani::unwind(8)]
+    pub fn storage_offset_i32_rank3_in_range() {
+        let ok = storage_offset_contract::<i32, 3>(0, 0);
+        kani::cover!(ok, "Ok reachable");
+    }
+
     // ------------------------------------------------------------------ constant_data_from_flatbuffers_vec
 
     /// `constant_data_from_flatbuffers_vec` returns `ConstantNodeData<T>` today; a repair that
@@ -274,6 +310,20 @@ mod verif_rtenload {
     }
     pub fn prepack_weights_stub(_graph: &Graph, _cache: &mut WeightCache) {}
 
+    /// Stub for `RandomState::new` (hash seeds of the two empty `HashMap`s inside the
+    /// `ModelOptions` value the harness has to pass to `load`): the real one reads OS entropy,
+    /// which Kani cannot model. Fixed keys; no map is ever hashed into.
+    pub fn random_state_stub() -> std::hash::RandomState {
+        // Safety: RandomState is two u64 keys; any bit pattern is valid.
+        unsafe { std::mem::transmute::<[u64; 2], std::hash::RandomState>([0, 0]) }
+    }
+
+    /// Stub for `alloc::fmt::format` (error-message text only; never executed in this harness,
+    /// it only keeps the formatting machinery out of the symbolic execution).
+    pub fn format_stub(_args: core::fmt::Arguments<'_>) -> String {
+        String::new()
+    }
+
     pub const FILE: usize = 40;
 
     /// The real `load` on a symbolic file prefix (symbolic header bytes, file length FILE):
@@ -283,6 +333,8 @@ mod verif_rtenload {
     #[kani::unwind(8)]
     #[kani::stub(rten_model_file::schema::root_as_model, root_as_model_stub)]
     #[kani::stub(load_graph, load_graph_stub)]
+    #[kani::stub(alloc::fmt::format, format_stub)]
+    #[kani::stub(std::hash::RandomState::new, random_state_stub)]
     #[kani::stub(crate::graph::Graph::prepack_weights, prepack_weights_stub)]
     pub fn load_header_model_slice() {
         let data: [u8; FILE] = kani::any();
